@@ -10,3 +10,10 @@ class AnalysisError(Exception):
 
     Mapped to exit code 2 (ANALYSIS-ERROR): a vanished anchor is never a pass.
     """
+
+
+class ShapeMismatch(AnalysisError):
+    """An anchored function exists but no longer has the construct a rule must examine.
+
+    Reported as a failing obligation (the clause cannot be established on this code), not as exit 2.
+    """
